@@ -55,6 +55,7 @@ type specEnv struct {
 
 	atInstr         bool
 	calleeGhosts    []GhostDecl
+	calleeLabels    []string
 	inOld           bool
 	onlyGhostLocals bool
 	top             *State // the live state: function-level ghosts are locals and are not affected by old()
@@ -1366,11 +1367,13 @@ func (env *specEnv) fieldHeapOf(x SExpr) (name, sort string) {
 // isCalleeGhostError: the evaluation failed only because the clause names a function-level ghost of the callee
 // (invisible to callers). Any other unknown identifier (a typo in an assumed contract!) stays a hard error.
 func (env *specEnv) isCalleeGhostError(msg string) bool {
-	if !strings.Contains(msg, "unknown identifier") {
-		return false
-	}
 	for _, g := range env.calleeGhosts {
 		if strings.Contains(msg, fmt.Sprintf("unknown identifier %q", g.Name)) {
+			return true
+		}
+	}
+	for _, l := range env.calleeLabels {
+		if strings.Contains(msg, "label "+l+" is not declared") {
 			return true
 		}
 	}
